@@ -68,6 +68,7 @@ type StackCfg struct {
 	PerLinkConn bool      `json:"per_link_conn"`
 	ConnFreqMHz int       `json:"conn_freq_mhz"`
 	Tracing  bool         `json:"tracing"` // vis tracing on start (DB tracer)
+	WithCtrl bool         `json:"with_ctrl"` // add a control driver wired to every Control port
 }
 
 // Stack is a built assembly.
@@ -83,6 +84,7 @@ type Stack struct {
 	Mems     []messaging.Component
 	Storages []*mem.Storage // one per memory module (may repeat when shared)
 	Conns    []*directconnection.Comp
+	Ctrl     *CtrlDriver
 	Dir      string
 }
 
@@ -338,6 +340,17 @@ func BuildStack(cfg StackCfg, dir string) *Stack {
 		}
 		for _, m := range s.Mems {
 			c.PlugIn(m.GetPortByName("Top"))
+		}
+	}
+	if cfg.WithCtrl {
+		s.Ctrl = BuildCtrlDriver(reg, "CtrlDriver", pb)
+		c := mkConn("CtrlConn")
+		c.PlugIn(s.Ctrl.GetPortByName("Ctrl"))
+		for _, l := range s.Levels {
+			c.PlugIn(l.GetPortByName("Control"))
+		}
+		for _, m := range s.Mems {
+			c.PlugIn(m.GetPortByName("Control"))
 		}
 	}
 	return s
